@@ -10,7 +10,7 @@ import numpy as np
 ID = "C11"
 PROPS_FILE = "theories/Props/C11.v"
 EXTRACT = ("theories/Extract/XC11.v", "c11", ["entry_run", "entry_ref", "entry_check", "entry_fmul", "entry_fmul32", "entry_otsu",
-                                               "entry_geom", "entry_check_po", "entry_check_blocks"])
+                                               "entry_geom", "entry_check_po", "entry_check_blocks", "entry_robust", "entry_mct"])
 PYX = {}
 CASE_TIMEOUT = 120
 METHODS = ["Otsu", "MoG", "Background", "RobustBackground", "RidlerCalvard", "Kapur", "MCT"]
@@ -239,6 +239,28 @@ def _otsu_case(rng):
             "a": float(rng.uniform(0.2, 3.0)), "bf": float(rng.uniform(-1, 1))}
 
 
+def _body_case(rng, fn):
+    """reference models of method bodies on small dyadic data: robust background (trimming, mean, variance) and
+    maximum correlation (binning, arg-max)"""
+    n = int(rng.choice([3, 4, 7, 10, 20, 21, 40, 100, 199, 300]))
+    bits = int(rng.choice([3, 6, 10, 14]))
+    kind = str(rng.choice(["uni", "bimodal", "few"]))
+    if kind == "uni":
+        v = rng.randint(0, 1 << bits, n)
+    elif kind == "bimodal":
+        v = np.where(rng.rand(n) < 0.4, rng.normal(0.75, 0.08, n), rng.normal(0.25, 0.06, n)).clip(0, 1)
+        v = np.round(v * ((1 << bits) - 1)).astype(int)
+    else:
+        v = rng.choice(rng.randint(0, 1 << bits, 4), n)
+    c = {"fn": fn, "ints": [int(x) for x in v], "bits": bits}
+    if fn == "rob":
+        c.update(lof=float(rng.choice([0.0, 0.01, 0.05, 0.1, 0.2, 0.25])), uof=float(rng.choice([0.0, 0.05, 0.125, 0.3])),
+                 dev=float(rng.choice([0.0, 1.0, 2.0, 3.5])))
+    else:
+        c.update(bins=int(rng.choice([2, 16, 64, 256, 1000])))
+    return c
+
+
 def _fmul_cases(rng, n):
     """binary64 product vs Base.ThresholdNum.fmul: random operands, the band constants, exact ties
     ((2^52+odd) * 1.5 has 54 significant bits ending in 1), gradual underflow"""
@@ -289,6 +311,9 @@ def generate(ctx):
     for _ in range(ctx.n(250, 3000)):
         cases.append(_otsu_case(rng))
     cases.extend(_fmul_cases(rng, ctx.n(300, 3000)))
+    for _ in range(ctx.n(120, 1500)):
+        cases.append(_body_case(rng, "rob"))
+        cases.append(_body_case(rng, "mct"))
     for c in cases:
         if c["fn"] == "thr":
             ctx.count("thr:%s" % MODS[c["mod"]])
@@ -639,6 +664,21 @@ def impl(case):
                 "p32": float((np.array([a32]) * np.array([b32]))[0])}
     if case["fn"] == "mal":
         return _impl_mal(case)
+    if case["fn"] in ("rob", "mct"):
+        import centrosome.threshold as T
+        x = (np.array(case["ints"], float) / float(1 << case["bits"])).reshape(1, -1)
+        if case["fn"] == "rob":
+            f = lambda im, mk: T.get_robust_background_threshold(im, mk, case["lof"], case["uof"], case["dev"])
+        else:
+            f = lambda im, mk: T.get_maximum_correlation_threshold(im, mk, case["bins"])
+        t = float(f(x.copy(), None))
+        # the same data reached through a mask (extra masked-out pixels interleaved)
+        big = np.zeros((1, 2 * x.shape[1]))
+        big[0, ::2] = x[0]
+        big[0, 1::2] = 0.5
+        mk = np.zeros(big.shape, bool)
+        mk[0, ::2] = True
+        return {"t": t, "t_masked": float(f(big, mk))}
     return _impl_thr(case) if case["fn"] == "thr" else _impl_otsu(case)
 
 
@@ -708,6 +748,15 @@ def model(ctx, cases, outs):
         res[k] = r
         if _tied(r):
             ctx.count("otsu_argmin_illconditioned_not_compared")
+    for fn, entry in (("rob", "entry_robust"), ("mct", "entry_mct")):
+        bi_ = [k for k, c in enumerate(cases) if c["fn"] == fn and not _bad(outs[k])]
+        ba = [[cases[k]["ints"], _q(cases[k]["lof"]), _q(cases[k]["uof"])] if fn == "rob" else
+              [cases[k]["ints"], cases[k]["bins"]] for k in bi_]
+        for k, r in zip(bi_, ctx.run_model(entry, ba)):
+            res[k] = r
+            if fn == "mct" and len(r) == 5 and r[4] != [] and _fr(r[3]) - _fr(r[4][0]) <= Fraction(1, 10 ** 6) * max(
+                    _fr(r[3]), Fraction(1, 10 ** 12)):
+                ctx.count("mct_argmax_illconditioned_not_compared")
     fi = [k for k, c in enumerate(cases) if c["fn"] == "fmul"]
     fa = [[_q(cases[k]["a"]), _q(cases[k]["b"])] for k in fi]
     for k, r, r32 in zip(fi, ctx.run_model("entry_fmul", fa), ctx.run_model("entry_fmul32", fa)):
@@ -745,6 +794,50 @@ def _cmp_run(out, m):
     return None
 
 
+def _cmp_body(case, out, m):
+    if _bad(out):
+        return "%s reference case raised/crashed: %s" % (case["fn"], str(out)[:200])
+    v, sc = case["ints"], 1 << case["bits"]
+    t = out["t"]
+    if case["fn"] == "rob":
+        if len(v) < 3:
+            exp = Fraction(0)
+        elif min(v) == max(v):
+            exp = Fraction(v[0], sc)
+        else:
+            low, hi, ln, mean, var = m
+            if ln == 0:
+                return None                                   # empty trimmed sample: NaN in the code, outside the comparison
+            mean, var = _fr(mean) / sc, _fr(var) / (sc * sc)
+            dev = Fraction(case["dev"])
+            # threshold = mean + dev * sqrt(var): compare the squares, and the side
+            d = Fraction(t) - mean
+            tol = Fraction(1, 10 ** 9)
+            if d < -tol * max(abs(mean), Fraction(1, sc)):
+                return "robust background: threshold %r below the trimmed mean %r (chops %d:%d of %d)" % (t, float(mean), low, hi, len(v))
+            lhs, rhs = d * d, dev * dev * var
+            if abs(lhs - rhs) > tol * max(rhs, lhs, Fraction(1, sc * sc) * tol):
+                return ("robust background: implementation %r, reference mean %r + %r * sqrt(var %r) = %r (chops %d:%d of %d)"
+                        % (t, float(mean), case["dev"], float(var), float(mean) + case["dev"] * math.sqrt(float(var)),
+                           low, hi, len(v)))
+            exp = None
+        if exp is not None and Fraction(t) != exp:
+            return "robust background (degenerate data): implementation %r, expected %r" % (t, float(exp))
+    else:
+        if min(v) == max(v):
+            if Fraction(t) != Fraction(v[0], sc):
+                return "MCT (constant data): implementation %r, expected %r" % (t, v[0] / sc)
+        else:
+            mn, mx, k, best = m[0], m[1], m[2], _fr(m[3])
+            second = None if m[4] == [] else _fr(m[4][0])
+            if second is not None and best - second <= Fraction(1, 10 ** 6) * max(best, Fraction(1, 10 ** 12)):
+                return None                                   # (nearly) tied arg-max; counted in check()
+            exp = Fraction(mn, sc) + Fraction(k) * Fraction(mx - mn, sc) / (case["bins"] - 1)
+            if abs(Fraction(t) - exp) > Fraction(1, 10 ** 12) * max(abs(exp), Fraction(1, sc)):
+                return "MCT: implementation %r, reference %r (bin %d of %d)" % (t, float(exp), k, case["bins"])
+    return None
+
+
 def compare(case, out, m):
     if case["fn"] == "fmul":
         if _bad(out) or not math.isfinite(out["p"]):
@@ -758,6 +851,8 @@ def compare(case, out, m):
         return None
     if case["fn"] == "mal":
         return None
+    if case["fn"] in ("rob", "mct"):
+        return _cmp_body(case, out, m)
     if case["fn"] == "thr":
         if _bad(out):
             return "implementation crashed: %s" % (str(out)[:300],)
@@ -822,6 +917,13 @@ def check(ctx, cases, outs):
     bi, bargs = [], []
     for k, (c, o) in enumerate(zip(cases, outs)):
         if c["fn"] == "fmul":
+            continue
+        if c["fn"] in ("rob", "mct"):
+            if _bad(o):
+                res[k] = "%s raised/crashed on plain data: %s" % (c["fn"], str(o)[:200])
+            elif o["t"] != o["t_masked"] and not (o["t"] != o["t"] and o["t_masked"] != o["t_masked"]):
+                res[k] = "S1: the same data reached through a mask give a different %s threshold (%r vs %r)" % (
+                    c["fn"], o["t"], o["t_masked"])
             continue
         if c["fn"] == "mal":
             if _bad(o):
@@ -995,6 +1097,8 @@ def nontrivial(case, out):
         return (not _rejected(case)) and "raised" not in out and out["distinct"] >= 3 and out["n_out"] > 0
     if case["fn"] in ("fmul", "mal"):
         return False
+    if case["fn"] in ("rob", "mct"):
+        return len(set(case["ints"])) >= 3
     return len(set(case["ints"])) >= 3
 
 
@@ -1043,6 +1147,13 @@ def search_cases(ctx, rnd):
 
 def shrink_candidates(case):
     if case["fn"] in ("fmul", "mal"):
+        return
+    if case["fn"] in ("rob", "mct"):
+        v = case["ints"]
+        if len(v) > 3:
+            h = len(v) // 2
+            for sv in (v[:h], v[h:], v[1:], v[:-1]):
+                yield dict(case, ints=sv)
         return
     if "again_of" in case:
         return
